@@ -4580,6 +4580,10 @@ class PyCdlib:
                 abs_offset = abs_extent_loc * self.logical_block_size + offset
             elif isinstance(record, udfmod.UDFFileEntry):
                 abs_offset = record.extent_location() * self.logical_block_size
+            elif isinstance(record, eltorito.EltoritoEntry):
+                # An El Torito entry only stores the location and the number
+                # of sectors of the boot file, neither of which changes.
+                continue
             else:
                 # This should never happen
                 raise pycdlibexception.PyCdlibInternalError('Invalid record type')
